@@ -9,5 +9,5 @@ NEXT PNext
 CONSTANTS
   PMode = "pairs"
   PFlags = "real"
-  PNoDev = "noneany"
+  PNoDev = "all"
 INVARIANT InvPSound
